@@ -151,7 +151,7 @@ PROPS = {
         "thorough": {"workers": 16, "cases": 8000, "size": 50, "min_records": 14},
         "min_nontrivial_frac": 0.3,
         "rule": "histories of 6-32 steps over <= 6 live ExplicitTreeAut and <= 4 live ExplicitFiniteAut handles: default-construct, build/load, copy-construct (all four copyTrans/copyFinal combinations), copy-assign (incl. self), "
-                "move-construct, move-assign, AddTransition, SetStateFinal, SetStateStart, EraseFinalStates, Clear, destroy, value-producing operations (Union, UnionDisjointStates, Intersection(BU), RemoveUnreachableStates, "
+                "move-construct, move-assign, AddTransition (both overloads), SetStateFinal, SetStatesFinal (bulk, adds), SetStateStart, EraseFinalStates, Clear, destroy, the two calls that write INTO an automaton of the caller (ReindexStates(dst,..), CopyTransitionsFrom), value-producing operations (Union, UnionDisjointStates, Intersection(BU), RemoveUnreachableStates, "
                 "RemoveUselessStates, Reduce, GetCandidateTree, ReindexStates, CollapseStates, TranslateSymbols, Reverse) whose results enter the pool with the value observed at return, and verdict-producing calls "
                 "(IsLangEmpty, the 8 inclusion selections). After EVERY step all live handles are read (iteration / dump) and must equal their model values; at the end every recorded value/verdict call is repeated on freshly "
                 "built operands with the same values and must give the same verdict / a language-equivalent automaton with the same numbers of states and rules. Non-trivial: the history mutates a handle that (potentially) "
